@@ -49,7 +49,8 @@ def replay(ctx, rep):
     if case.get('scenario'):
         return common.scenario_replay(ctx, rep, {'asym': asym_scenarios, 'hierarchy': hierarchy_scenarios,
                                                  'retype': retype_scenarios, 'generic': generic_retype_scenarios,
-                                                 'enum': enum_edit_scenarios, 'slice': slice_scenarios})
+                                                 'enum': enum_edit_scenarios, 'slice': slice_scenarios,
+                                                 'illtyped': illtyped_document_scenarios})
     r = krun.Run(case, ['C03']).run()
     for s in r.steps:
         print(s['op'], '->', s['outcome'])
@@ -808,3 +809,98 @@ _run5 = run
 def run(ctx, out):   # noqa: F811
     _run5(ctx, out)
     slice_scenarios(ctx, out)
+
+
+def illtyped_document_scenarios(ctx, out):
+    """the loaders are a mutation path too: a document (XMI / JSON) in which a reference into the same document names an
+    object of the WRONG class either fails to load, or - whatever the loader did - the feature never shows an object
+    outside its type once the reference is followed (single- and many-valued references, both reference spellings)"""
+    import os
+    import re
+    import tempfile
+    from harness import common
+    common.use_repo()
+    from pyecore import ecore as E
+    from pyecore.resources import ResourceSet, URI
+    from pyecore.resources.json import JsonResource
+    rng = common.rng_for(ctx.seed, 'C03:illtyped')
+    n = 24 if ctx.tier != 'thorough' else 400
+    cnt = loaded = 0
+    for it in range(n):
+        fmt = 'json' if it % 2 else 'xmi'
+        pkg = E.EPackage('p', nsURI=f'http://verif/c03/ill/{it}', nsPrefix='p')
+        B, C = E.EClass('B'), E.EClass('C')
+        A = E.EClass('A')
+        R = E.EClass('R')
+        for c in (A, B, C, R):
+            c.eStructuralFeatures.append(E.EAttribute('name', E.EString))
+        A.eStructuralFeatures.append(E.EReference('r', B))
+        A.eStructuralFeatures.append(E.EReference('rs', B, upper=-1, unique=rng.random() < 0.5))
+        R.eStructuralFeatures.append(E.EReference('as_', A, upper=-1, containment=True))
+        R.eStructuralFeatures.append(E.EReference('bs', B, upper=-1, containment=True))
+        R.eStructuralFeatures.append(E.EReference('cs', C, upper=-1, containment=True))
+        pkg.eClassifiers.extend([A, B, C, R])
+
+        def new_rset():
+            rs = ResourceSet()
+            rs.metamodel_registry[pkg.nsURI] = pkg
+            rs.resource_factory['json'] = lambda uri: JsonResource(uri)
+            return rs
+        root = R(name='root')
+        for i in range(2):
+            root.as_.append(A(name=f'a{i}'))
+            root.bs.append(B(name=f'b{i}'))
+            root.cs.append(C(name=f'c{i}'))
+        which = rng.choice(['single', 'many', 'both'])
+        if which in ('single', 'both'):
+            root.as_[0].r = root.bs[1]
+        if which in ('many', 'both'):
+            root.as_[1].rs.extend([root.bs[0], root.bs[1]])
+        with tempfile.TemporaryDirectory() as tmp:
+            path = os.path.join(tmp, 'm.' + fmt)
+            rs = new_rset()
+            res = rs.create_resource(URI(path))
+            res.append(root)
+            res.save()
+            text = open(path, encoding='utf-8').read()
+            spelled = rng.choice(['plain', 'hash'])
+            # the target of every reference into bs is re-pointed to the object at the same position of cs
+            bad = text.replace('//@bs.1', ('#' if spelled == 'hash' else '') + '//@cs.1')
+            if rng.random() < 0.5:
+                bad = bad.replace('//@bs.0', ('#' if spelled == 'hash' else '') + '//@cs.0')
+            bad = re.sub(r'("\$ref": "#?//@cs\.\d",\s*"eClass": "[^"]*#//)B"', r'\1C"', bad) if rng.random() < 0.5 else bad
+            if bad == text:
+                continue
+            open(path, 'w', encoding='utf-8').write(bad)
+            cnt += 1
+            hist = [['format', fmt, 'references', which, 'spelling', spelled]]
+            case = {'scenario': 'illtyped', 'seed': ctx.seed, 'tier': ctx.tier, 'history': hist}
+            try:
+                lr = new_rset().get_resource(URI(path)).contents[0]
+            except Exception as e:  # noqa
+                hist.append(['load', type(e).__name__])
+                continue                      # refused: fine
+            loaded += 1
+            wrong = []
+            for a in lr.as_:
+                try:
+                    vals = ([a.r] if a.r is not None else []) + list(a.rs)
+                    for v in vals:
+                        v.name                # follow the reference
+                        tgt = v.force_resolve() if hasattr(v, 'force_resolve') else v
+                        if not isinstance(tgt, B.python_class):
+                            wrong.append(f'{a.name} holds {tgt.name} of class {tgt.eClass.name}')
+                except Exception as e:  # noqa
+                    hist.append(['follow', a.name, type(e).__name__])
+            if wrong:
+                out.fail({'property': 'C03', 'clause': 'nonconforming-value-stored', 'many': which != 'single', 'value': 'loaded-' + fmt},
+                         f'a {fmt} document whose reference typed B names an object of class C loads, and the feature shows it: {wrong[:2]}', case)
+    out.coverage['illtyped_documents'] = {'offered': cnt, 'loaded_without_error': loaded}
+
+
+_run6 = run
+
+
+def run(ctx, out):   # noqa: F811
+    _run6(ctx, out)
+    illtyped_document_scenarios(ctx, out)
